@@ -97,6 +97,17 @@ var loadCount int
 
 // loadStep delivers the document of a history step the way the step says.
 func loadStep(root *ggql.Root, st *Step) error {
+	if hasStandIn(st.Doc) { // (names written with stand-ins for characters outside ASCII; nothing is read back for them: they are refused)
+		doc := expandDefs(st.Doc)
+		if st.Via == "types" {
+			types, err := sch.Build(root, doc)
+			if err != nil {
+				return err
+			}
+			return root.AddTypes(types...)
+		}
+		return load(root, doc)
+	}
 	if st.Via == "types" {
 		types, err := sch.Build(root, st.Doc)
 		if err != nil {
@@ -106,6 +117,20 @@ func loadStep(root *ggql.Root, st *Step) error {
 		return root.AddTypes(types...)
 	}
 	return load(root, st.Doc)
+}
+
+func hasStandIn(defs []sch.Def) bool {
+	for i := range defs {
+		if strings.Contains(defs[i].Name, "{") {
+			return true
+		}
+		for k := range defs[i].Fields {
+			if strings.Contains(defs[i].Fields[k].N, "{") {
+				return true
+			}
+		}
+	}
+	return false
 }
 
 func load(root *ggql.Root, defs []sch.Def) error {
@@ -368,7 +393,7 @@ func eachHistory(path string, f func(hi int, h *History)) {
 }
 
 // expand replaces the ASCII stand-ins of MCPrint.tla by the characters they stand for.
-var standIns = strings.NewReplacer("{Q}", "\"", "{B}", "\\", "{N}", "\n", "{E}", "\u00e9", "{T}", "\"\"\"", "{U}", "\\u0041", "{S}", " ", "{4}", "\U0001F600")
+var standIns = strings.NewReplacer("{Q}", "\"", "{B}", "\\", "{N}", "\n", "{E}", "\u00e9", "{T}", "\"\"\"", "{U}", "\\u0041", "{S}", " ", "{4}", "\U0001F600", "{OMEGA}", "\u03a9")
 
 func expandAny(x interface{}) interface{} {
 	switch v := x.(type) {
